@@ -240,7 +240,7 @@ NET_MUTS = [
         lambda obj, a, m: setattr(obj, "node_weights", mat(a["w"])), _upd_w),
     Mut("set_link_attribute", lambda r, m: {
         "name": r.choice(("w", "w", "w2")),
-        "W": {"k": r.choice(("", "", "i")) + (
+        "W": {"k": r.choice(("", "i")) + (
             "mat" if m.get("directed") else "sym"), "n": m["n"],
               "s": r.randrange(10 ** 9)}}, _apply_attr, _upd_attr),
     Mut("del_link_attribute", lambda r, m: {
@@ -339,7 +339,7 @@ def _net_model(r, n=None, directed=None):
          "w": r.choice((None, {"k": "w", "n": n, "s": r.randrange(10 ** 9)})),
          "attrs": {}}
     if r.random() < 0.8:
-        m["attrs"]["w"] = {"k": r.choice(("", "", "i")) + (
+        m["attrs"]["w"] = {"k": r.choice(("", "i")) + (
             "mat" if d else "sym"), "n": n, "s": r.randrange(10 ** 9)}
     return m
 
